@@ -214,6 +214,8 @@ def run(tier, seed):
            "exhaustive": False,
            "rule": "behaviour = (metric, Cayley rotation, path of depth <= 4 through the converters); 24 axis-aligned + seeded rotations x "
                    "seeded oblique metrics; every path in tools and laue for 2 scale factors; plus general integer matrices with det > 0 for ub_to_u_b"}
+    if tier == "thorough":
+        common.apalache_obligations(wd, ["CayleyOrthogonal", "AdjugateInverse"], cov)
     return v.finish("model_checking", cov, ASSUME)
 
 
